@@ -1,7 +1,7 @@
 #!/bin/bash
 # Build the framework from files on disk only: generated tables, the full Coq
 # development (.vo, no quick modes), extraction and the model driver.
-set -e
+set -e -o pipefail
 cd "$(dirname "$0")"
 export PYTHONPATH="${PROV_REPO:-/repo}/src:$(pwd)"
 export PYTHONDONTWRITEBYTECODE=1
